@@ -14,9 +14,10 @@
 (* library issued during the call with their results.                                      *)
 (*                                                                                         *)
 (* Judged (names of failed conditions go to `bad`, the rest of that run is skipped):       *)
-(*   WSAckComplete   Close = OK  =>  the sink holds a complete file: the bytes of the      *)
-(*                   fault-free run, or a file the reference reader maps to exactly the   *)
-(*                   rows acknowledged by OK write_batch calls                             *)
+(*   WSAckComplete   Close = OK  =>  all bytes reached the sink: nothing was refused and  *)
+(*                   the sink holds every byte handed to the stream, or it holds the      *)
+(*                   bytes of the fault-free run, or a file the reference reader maps to  *)
+(*                   exactly the rows acknowledged by OK write_batch calls                *)
 (*   WSFailReported  the sink failed  =>  some call, at the latest Close, returned non-OK  *)
 (*                   (sink:failure-never-reported:<stdio call whose failure was dropped>;  *)
 (*                   sink:close-ok-after-reported-failure:<call> when only WSAckComplete   *)
@@ -38,7 +39,9 @@ tvars == <<wst, schema, cur, done, sink, impl, l, skip, bad, stats, ref, run, ac
 Ev == Tr[l]
 Has(f) == f \in DOMAIN Ev
 UnknownCap == 1000000
-NoRun == [failedOps |-> {}, tracked |-> FALSE, refRun |-> FALSE]
+NoRun == [failedOps |-> {}, tracked |-> FALSE, refRun |-> FALSE, pos |-> 0]
+\* bytes the library handed to the stream in the logged operations
+Handed(ops) == FoldLeft(LAMBDA a, o : IF o.op = "w" THEN a + o.n ELSE a, 0, ops)
 
 OpName(k) == CASE k = "w" -> "fwrite" [] k = "f" -> "fflush" [] k = "c" -> "fclose" [] OTHER -> k
 EvOps == IF Has("ops") THEN Ev.ops ELSE <<>>
@@ -59,20 +62,24 @@ OpStep(a, o) ==
             ELSE [a EXCEPT !.tracked = FALSE, !.drift = @ + 1]
 Track(ops) == FoldLeft(OpStep, [s |-> sink, tracked |-> run.tracked, drift |-> 0, n |-> 0], ops)
 
-\* ---- "all bytes reached the sink": the sink holds a complete file
-\* Either the bytes of the fault-free run of the same history, or a byte string the reference
-\* reader accepts as a Parquet file whose content (row groups concatenated per column) is exactly
-\* the acknowledged rows.  (A call that reported failure promised nothing: its rows may be absent;
-\* rows acknowledged by an OK call must be there.)  "undecided": page bodies the TLA+ reader cannot
-\* decode (GZIP, ZSTD).
+\* ---- "all bytes reached the sink" when Close returns
+\*  (1) the device never refused anything and holds every byte the library handed to the stream, or
+\*  (2) the device holds exactly the bytes of the fault-free run of the same history, or
+\*  (3) (after a refusal, e.g. a retried write) the device holds a byte string the reference reader
+\*      accepts as a Parquet file whose content (row groups concatenated per column) is exactly the
+\*      rows acknowledged by OK write_batch calls.  A call that reported failure promised nothing:
+\*      its rows may be absent; acknowledged rows must be there.
+\*  "undecided": page bodies the TLA+ reader cannot decode (GZIP, ZSTD).
 FlatCol(t, c) == [defs |-> Flatten([g \in 1..Len(t) |-> t[g].cols[c].defs]),
                   vals |-> Flatten([g \in 1..Len(t) |-> t[g].cols[c].vals])]
+NothingLost == ~Ev.sf /\ Ev.acc = run.pos + Handed(EvOps) /\ Len(Ev.bytes) = Ev.acc
 Completeness(bs) ==
-    IF ref # <<>> /\ bs = ref THEN "yes"
+    IF NothingLost THEN "yes"
+    ELSE IF ref # <<>> /\ bs = ref THEN "yes"
     ELSE LET f == ParseFile(bs)
          IN IF ~f.ok THEN (IF f.why = "codec-not-modelled" THEN "undecided" ELSE "no")
             ELSE IF Len(f.leaves) = NCols /\ \A c \in 1..NCols : FlatCol(TableOf(f), c) = ack[c] THEN "yes" ELSE "no"
-CompleteWhy(bs) == IF ref # <<>> /\ bs = ref THEN "" ELSE LET f == ParseFile(bs) IN IF f.ok THEN "parses-but-table-differs-from-acknowledged-rows" ELSE f.why
+CompleteWhy(bs) == IF NothingLost \/ (ref # <<>> /\ bs = ref) THEN "" ELSE LET f == ParseFile(bs) IN IF f.ok THEN "parses-but-table-differs-from-acknowledged-rows" ELSE f.why
 
 \* ---- prefixes: v[k+1] is the verdict for cut k: 0 = NULL returned but no error code set,
 \*      1..8999 = rejected with that code, 9001 = opened, 9002 = crash/hang, 9003 = rejected but
@@ -150,7 +157,7 @@ SinkAfter == LET t == Track(EvOps) IN t
 CallUpdate(closing) ==
     LET t == Track(EvOps)
     IN /\ sink' = t.s
-       /\ run' = [run EXCEPT !.failedOps = @ \cup FailedKinds(EvOps), !.tracked = t.tracked]
+       /\ run' = [run EXCEPT !.failedOps = @ \cup FailedKinds(EvOps), !.tracked = t.tracked, !.pos = @ + Handed(EvOps)]
        /\ impl' = [impl EXCEPT !.anyErr = @ \/ Ev.st # 0,
                                !.handle = IF closing THEN FALSE ELSE @,
                                !.closeRet = IF closing THEN (IF Ev.st = 0 THEN "ok" ELSE "err") ELSE @]
@@ -158,7 +165,7 @@ CallUpdate(closing) ==
                                  !.sinkops = @ + t.n, !.drift = @ + t.drift,
                                  !.okcloses = IF closing /\ Ev.st = 0 /\ ~run.refRun THEN @ + 1 ELSE @,
                                  !.spurious = IF Ev.st # 0 /\ ~Ev.sf THEN @ + 1 ELSE @,
-                                 !.parsedcloses = IF closing /\ Ev.st = 0 /\ ~run.refRun /\ Ev.bytes # ref THEN @ + 1 ELSE @,
+                                 !.parsedcloses = IF closing /\ Ev.st = 0 /\ ~NothingLost /\ Ev.bytes # ref THEN @ + 1 ELSE @,
                                  !.undecidedcloses = IF closing /\ Ev.st = 0 /\ ~run.refRun /\ Completeness(Ev.bytes) = "undecided" THEN @ + 1 ELSE @]
 
 Apply ==
@@ -166,7 +173,7 @@ Apply ==
             /\ Create(Ev.cols)
             /\ sink' = SkNew(Ev.cap, Ev.arm)
             /\ impl' = [WSIdle EXCEPT !.owned = (Ev.kind = "p"), !.exists = (Ev.kind = "p"), !.handle = TRUE]
-            /\ run' = [failedOps |-> {}, tracked |-> TRUE, refRun |-> ref = <<>>]
+            /\ run' = [failedOps |-> {}, tracked |-> TRUE, refRun |-> ref = <<>>, pos |-> 0]
             /\ stats' = [stats EXCEPT !.events = @ + 1, !.runs = @ + 1]
             /\ ack' = [c \in 1..Len(Ev.cols) |-> [defs |-> <<>>, vals |-> <<>>]]
             /\ UNCHANGED ref
